@@ -220,6 +220,144 @@ def scenario(params, ch):
         w.close()
 
 
+# ---------------------------------------------------------------------------
+# part "threads": the server-side client object is the API game code uses from wherever it runs.  Two real threads -
+# the server thread inside ServerClientConnection.update() (packet build, timeouts, re-queueing) and an application
+# thread inside send_guaranteed()/send() on the SAME object - under every schedule with <= 1 (quick) / 2 preemptions at
+# line granularity (thorough: bytecode granularity for bound 1).  Afterwards the link is perfect: every message is
+# delivered exactly once and every guaranteed callback fires exactly once with True.
+
+def thread_scenario(params, ch):
+    from mc import threads, seams
+    from mpgameserver.connection import ServerClientConnection, PacketHeader, RetryMode
+    from mpgameserver.context import ServerContext
+    from mpgameserver.handler import EventHandler
+    t1_op, t2_op, first, queued, opcodes = params
+    KEY = bytes(range(32, 48))
+    now = [5000.0]
+    ctxt = ServerContext(EventHandler(), seams.fixture_keys()[0])
+    srv = ServerClientConnection(ctxt, ("10.0.0.5", 5))
+    cli = ConnectionBase(False, ("10.0.0.5", 5))
+    for c in (srv, cli):
+        c.clock = lambda: now[0]
+        c.session_key_bytes = KEY
+        c.status = ConnectionStatus.CONNECTED
+    got = {}
+    cbs = {}
+    sent = {}
+
+    def mk(tag):
+        return lambda ok: cbs.setdefault(tag, []).append(bool(ok))
+
+    def srv_send(tag, size, guaranteed):
+        data = payload(len(sent) + 1, size)
+        sent[tag] = (data, guaranteed)
+        if guaranteed:
+            srv.send_guaranteed(data, callback=mk(tag))
+        else:
+            srv.send(data, retry=RetryMode.NONE, callback=mk(tag))
+
+    def to_client(r):
+        if r:
+            pkt, key, addr = r
+            d = pkt.to_bytes(key)
+            cli._recv_datagram(PacketHeader.from_bytes(False, d), d)
+            for seq, m in cli.incoming_messages:
+                got[m] = got.get(m, 0) + 1
+            cli.incoming_messages = []
+
+    def client_frame(deliver=True):
+        pkt = cli._build_packet()
+        if pkt is not None and deliver:
+            d = cli._encode_packet(pkt)
+            srv._recv_datagram(PacketHeader.from_bytes(True, d), d)
+            srv.incoming_messages = []
+        cli._check_timeout(now[0])
+
+    # warm-up: a few exchanged frames, then the messages that are queued before the race
+    for _ in range(3):
+        now[0] += 0.02
+        to_client(srv.update())
+        client_frame()
+    for i, (size, g) in enumerate(queued):
+        srv_send("q%d" % i, size, g)
+    held = []
+    if t1_op == "timeout-update":
+        # the queued messages go out once, the datagram is lost, and the server thread's next update() is the one in
+        # which it times out (RetrySender re-queues) - that update races with the application thread
+        now[0] += 0.02
+        srv.update()
+        now[0] += 1.2
+    elif t1_op == "ack-update":
+        now[0] += 0.02
+        r = srv.update()
+        to_client(r)
+        now[0] += 0.02
+        pkt = cli._build_packet()
+        held.append(cli._encode_packet(pkt) if pkt is not None else None)
+        now[0] += 0.02
+    else:
+        now[0] += 0.02
+    out = []
+
+    def body1():
+        if held and held[0] is not None:
+            srv._recv_datagram(PacketHeader.from_bytes(True, held[0]), held[0])
+        out.append(srv.update())
+
+    def body2():
+        size, g = {"guaranteed-40": (40, True), "plain-40": (40, False), "guaranteed-2000": (2000, True), "guaranteed-0": (0, True)}[t2_op]
+        srv_send("t2", size, g)
+
+    tt = threads.TwoThreads(ch, ("mpgameserver/connection.py",), opcodes=opcodes)
+    errs = tt.run(body1, body2, first=first)
+    for tid, e in enumerate(errs):
+        if e is not None:
+            ch.flag("thread-exception", "%s raises %s when the server thread and an application thread interleave" % (
+                "ServerClientConnection.update()" if tid == 0 else "send on the server-side client object", type(e).__name__), repr(e))
+            return
+    for r in out:
+        to_client(r)
+    # perfect link from here on
+    for _ in range(400):
+        now[0] += 0.02
+        to_client(srv.update())
+        client_frame()
+        if all(got.get(d, 0) >= 1 for d, g in sent.values()) and not srv.outgoing_messages and not srv.pending_retry_msg and not srv.pending_acks:
+            break
+    ch.steps = tt.points
+    res = tuple(sorted((tag, got.get(d, 0), tuple(cbs.get(tag, []))) for tag, (d, g) in sent.items()))
+    ch.outcome = res
+    for tag, (d, g) in sorted(sent.items()):
+        n = got.get(d, 0)
+        if g and n < 1:
+            ch.flag("silently-unsent", "a guaranteed message sent from an application thread while the server thread was inside update() is never delivered (perfect link)",
+                    "message %s (%d bytes): delivered %d times, callbacks %r, still queued %d, awaiting retry %d" % (
+                        tag, len(d), n, cbs.get(tag), len(srv.outgoing_messages), len(srv.pending_retry_msg)))
+        elif not g and n < 1 and not (t1_op == "timeout-update" and tag != "t2"):     # (the scenario itself lost that datagram)
+            ch.flag("silently-unsent", "an unretried message sent from an application thread while the server thread was inside update() never leaves the queue (perfect link)",
+                    "message %s: delivered %d times" % (tag, n))
+        if n > 1:
+            ch.flag("thread-duplicate", "a message sent while the server thread was inside update() is delivered more than once", "message %s: %d times" % (tag, n))
+        if g and cbs.get(tag, []) != [True] and n >= 1:
+            ch.flag("thread-callback", "guaranteed send racing with update(): callback not exactly once True", "message %s: %r" % (tag, cbs.get(tag)))
+
+
+def thread_params(tier):
+    out = []
+    queues = [((40, True),), ((40, False), (30, True)), ((2000, True),), ()]
+    for t1 in ("update", "timeout-update", "ack-update"):
+        for t2 in ("guaranteed-40", "plain-40", "guaranteed-2000", "guaranteed-0"):
+            for q in queues:
+                if t1 != "update" and not q:
+                    continue
+                if tier == "quick" and (t2 == "guaranteed-0" or (t2 == "plain-40" and t1 != "update") or (q == ((2000, True),) and t2 == "guaranteed-2000")):
+                    continue
+                for first in (0, 1):
+                    out.append((t1, t2, first, q, False))
+    return out
+
+
 def size_class(size, P, F):
     if size <= P:
         return "single datagram, len = P%+d" % (size - P) if size > P - 8 else "single datagram"
@@ -306,8 +444,17 @@ def run(tier, seed):
     loss_part = [p for p in plist if p[3] != ("drop",)]
     st1 = explore.explore_all("checks.c05", "scenario", sizes_part, 1, time_budget=(1000 if tier == "quick" else 3000))
     st2 = explore.explore_all("checks.c05", "scenario", loss_part, 2, time_budget=(1000 if tier == "quick" else 3000))
+    tp = thread_params(tier)
+    st_t = explore.explore_all("checks.c05", "thread_scenario", tp, 1 if tier == "quick" else 2, time_budget=(900 if tier == "quick" else 2400))
+    thr_cov = {"configurations": len(tp), "schedules": st_t.executions, "by_preemptions": st_t.by_cost, "scheduling_points": st_t.steps, "distinct_outcomes": len(st_t.outcomes),
+               "capped": st_t.capped, "granularity": "line"}
+    if tier == "thorough":
+        tp2 = [p[:4] + (True,) for p in tp if p[3] and p[1] in ("guaranteed-40", "guaranteed-2000")]
+        st_o = explore.explore_all("checks.c05", "thread_scenario", tp2, 1, time_budget=1800)
+        thr_cov["bytecode_granularity"] = {"configurations": len(tp2), "schedules": st_o.executions, "scheduling_points": st_o.steps, "capped": st_o.capped}
+        st_t.violations.extend(st_o.violations)
     b3 = None
-    sts = [st1, st2]
+    sts = [st1, st2, st_t]
     if tier == "thorough":
         sub = [p for p in loss_part if p[4] is None and p[5] is False and p[6] == "cs" and p[7] == 1][:6]
         st3 = explore.explore_all("checks.c05", "scenario", sub, 3, time_budget=420)
@@ -331,7 +478,7 @@ def run(tier, seed):
         "rule": "states = execution-tree nodes; transitions = virtual ticks run on the real stack; outcomes = (delivered, both connected, ticks after healing)",
         "exhaustive": not (st1.capped or st2.capped),
         "samples": (st1.samples[:2] + st2.samples[:3]),
-        "horizon_s": HORIZON_S, "bound3_part": b3,
+        "horizon_s": HORIZON_S, "bound3_part": b3, "threads_part": thr_cov,
     }
     rep.assumptions = ["bounded liveness: delivery within %.0f virtual seconds (+ fragment count x 2 ticks) after the network healed" % HORIZON_S,
                        "<=1 loss per execution in the size sweep, <=2 deviations in the loss part; blackouts are parameters",
@@ -340,6 +487,9 @@ def run(tier, seed):
 
 
 def replay(witness):
+    if len(witness["params"]) == 5:
+        ch = explore.replay_choices(thread_scenario, _tup(witness["params"]), witness["choices"])
+        return [core.Violation(o, s, witness, m) for o, s, m in ch.found]
     ch = explore.replay_choices(scenario, _tup(witness["params"]), witness["choices"])
     return [core.Violation(o, s, witness, m) for o, s, m in ch.found]
 
